@@ -17,6 +17,25 @@ CHECKS = {
     ),
 }
 
+CHECKS["C01"] = dict(
+    level="exploration",
+    text="Seeded search over sessions of tunnel requests (17 Proxy-Authorization classes, 7 request kinds, 3 authenticator configurations, SNI-credential states, both protocols, multiplexed orders) against the real Tunnel five-way match, header parsing and authenticator; a reference authorisation table written from the statement decides 407 / no egress per request, and the world's connect/resolver census attributes every egress to one request.",
+    design="DESIGN.md section 8 (C01)",
+    note="Trusted: the h2 client as HTTP/2 peer, the world's socket model. TLS is skipped (SNI credentials are handed to the session door). HTTP/3 not simulated.",
+)
+CHECKS["C10"] = dict(
+    level="exploration",
+    text="Seeded search over request methods x authorities x every outcome of the outbound attempt (connect refused/unreachable/timed out/never/EMFILE, resolver error/empty/never, policy refusal) on both protocols; the status/X-Warning table of the statement is the oracle, the response-head count and the egress census decide 'exactly one' and 'never looked up'.",
+    design="DESIGN.md section 8 (C10)",
+    note="Trusted: the world's connect-error model (errno values), the h2 client. Durations within 2 ms of the establishment time-out are undecided. HTTP/3 not simulated.",
+)
+CHECKS["C03"] = dict(
+    level="exploration",
+    text="Every boundary of every IANA special-purpose block in every spelling (IPv4 literal, IPv4-mapped literal, host name) under both policy values and a sweep of the first IPv6 hextet are enumerated; sessions with mixed multi-address resolver answers and DNS rebinding are sampled; an independent classifier (must-refuse / must-allow / either) and the connect census decide. Exploration rather than enumeration of 2^32 addresses: block-level changes are visible at the boundaries, the evidence states the sample.",
+    design="DESIGN.md section 8 (C03)",
+    note="Trusted: the reference classifier (IANA registries as of 2024), the world's resolver model. HTTP/3 not simulated.",
+)
+
 NOT_YET = {
 }
 
